@@ -114,3 +114,8 @@ CHECKS["C17"] = {"pkg": "wallet", "shards": 12,
     "technique": "metamorphic stateful property testing (rapid state machine per wallet type): batch-split generation, scanning, reload, clone and lock/unlock must equal one-shot generation; independent re-derivation with the reference BIP39/32/44 and the documented deterministic iterator",
     "text": "Generated histories of generate / scan (with generated activity patterns) / serialise-load / clone / lock-unlock on deterministic, bip44 (both chains), xpub and collection wallets; after every step the entries must equal the first addresses of a fresh wallet of the same seed that generates everything at once, every entry must be internally consistent (address of public key, public key of secret key), the watch-only wallet must match the seed wallet, and the first addresses are re-derived independently at the end.",
     "note": "reference: harness/internal/ref/{bip,curve,rules}; lock/unlock uses sha256-xor for speed; collection wallets (no seed) are checked for consistency and invariance only"}
+
+CHECKS["C13"] = {"pkg": "wallet", "shards": 12,
+    "technique": "property-based testing (rapid) of wallet.SignTransaction with a success predictor and a before/after comparison oracle; signatures judged by the code verifier and the textbook curve",
+    "text": "Generated wallets of every type, transactions with 1-6 inputs of mixed ownership and partial pre-signatures, and index selections (none, subset, out of range, negative, duplicate, already signed, too many): success must be exactly what the documented contract predicts; on success exactly the addressed inputs gain a signature that verifies against the spent output's address and nothing else changes; on failure an error and no panic; the caller's transaction is never modified.",
+    "note": "pre-signatures are made with the deterministic reference signer; watch-only and encrypted wallets are negative cases"}
